@@ -364,6 +364,14 @@ func (s *writer) routine() {
 			for _, p := range packets {
 				if pack, ok := p.(*mqttp.Publish); ok {
 					if _, expireLeft, expired := pack.Expired(); expired {
+						if pack.QoS() != mqttp.QoS0 {
+							// popPackets has acquired packet id and send quota for this message
+							// and stored it as in-flight: give all of that back
+							id, _ := pack.ID()
+							s.pubOut.messages.Delete(id)
+							s.metric.OnSubUnAckSent(1)
+							s.releaseID(id)
+						}
 						continue
 					} else {
 						if expireLeft > 0 {
